@@ -261,6 +261,23 @@ scpi_result_t h_torture(World &w, const InstrOpts &o) {
         }
     }
 
+    // the library's own number formatters, called by the firmware with buffers of its own choosing (display cells):
+    // 0..64 bytes, exact fits included
+    {
+        int64_t val = (int64_t) (o.variant - 100) * 0x0102030405LL + n;
+        for (size_t cap : {tb, (size_t) (o.variant % 34), (size_t) 0, (size_t) 1, (size_t) 16}) {
+            XBuf b1(cap), b2(cap), b3(cap), b4(cap), b5(cap), b6(cap);
+            (void) SCPI_Int32ToStr((int32_t) val, b1.p, b1.n);
+            (void) SCPI_UInt32ToStrBase((uint32_t) val, b2.p, b2.n, (int8_t) ((o.variant % 3 == 0) ? 2 : (o.variant % 3 == 1) ? 16 : 8));
+            (void) SCPI_Int64ToStr(val, b3.p, b3.n);
+            (void) SCPI_UInt64ToStrBase((uint64_t) val, b4.p, b4.n, (int8_t) ((o.variant % 2) ? 2 : 10));
+            if (cap >= 1) {   // (a zero-length buffer is C15's business: strlen of nothing / __s[-1], see DESIGN 6b "observed")
+                (void) SCPI_FloatToStr((float) val * 0.001f, b5.p, b5.n);
+                (void) SCPI_DoubleToStr((double) val * 1e-7, b6.p, b6.n);
+            }
+        }
+    }
+
     // names the firmware received earlier and kept in exact-size storage (no terminator behind them), matched later with the
     // length-taking pattern test
     {
